@@ -344,7 +344,7 @@ def shard(part, n, seed, known, maxn):
 def run(ctx):
     jobs = []
     maxn = ctx.n(60, 200)
-    for part, nq, nt, k in (("sampler", 3000, 100000, 6), ("grid", 400, 6000, 7), ("e2e", 90, 2000, 3)):
+    for part, nq, nt, k in (("sampler", 12000, 150000, 5), ("grid", 1600, 10000, 7), ("e2e", 300, 3000, 4)):
         for i, m in enumerate(core.split(ctx.n(nq, nt), k)):
             jobs.append((part, m, core.subseed(ctx.seed, part, i), ctx.known_sigs, maxn))
     stats = core.Stats()
